@@ -138,7 +138,8 @@ def check_call(run, ev, JSONParseError, root=True):
         inner = [e for e in run.calls if e is not ev and e["path"][:len(ev["path"])] == ev["path"]
                  and len(e["path"]) == len(ev["path"]) + 1 and "exc" in e]
         own_raise = any(c.get("raised") for c in entered)
-        if not inner and not own_raise and i not in A and not ev.get("cause"):
+        by_other = i in A and not any(c.get("obj") is A[i] for c in entered)   # somebody else registered the id meanwhile
+        if not inner and not own_raise and not by_other and not ev.get("cause"):
             bad.append(("complete", "definition of unregistered id %r rejected without a duplicate or dangling id: %s" % (i, exc)))
     return bad
 
@@ -715,6 +716,17 @@ def ob_generic_node(clauses, po_variant=None):
                     ok, msg = replay_spec(witness)
                     confirmed = not ok
                     witness["real_code"] = msg
+                except Exception as e:
+                    witness["real_code"] = "replay failed: %r" % (e,)
+            elif sc["get_class"] == "class" and not sc["own_id_registered_before"] and not f["accepted"] \
+                    and [x for x in sc["constructor_steps"] if x != "return"] == ["selfreg"]:
+                # a constructor that registers itself: FlexibleTimeTreeModel is the shipped instance
+                try:
+                    args = {"specs": [_flexible_tree_spec()], "expect": "accept"}
+                    ok, msg = replay_spec(args)
+                    witness.update(args, real_code=msg)
+                    replay = {"kind": "custom", "contract": "C13", "func": "replay_spec", "args": args}
+                    confirmed = not ok
                 except Exception as e:
                     witness["real_code"] = "replay failed: %r" % (e,)
             raise Refuted("generic node: %d of %d scenarios violate %s; shortest: %s -> %s" % (
@@ -1456,6 +1468,43 @@ def ob_real_illformed(group):
     return fn
 
 
+def _flexible_tree_spec(heights_id="internal_heights"):
+    """FlexibleTimeTreeModel registers itself during construction because its height parameter refers back to it"""
+    from torchtree.evolution.tree_model_flexible import FlexibleTimeTreeModel
+    nh = {"id": heights_id, "type": "TransformedParameter",
+          "transform": "torchtree.evolution.tree_height_transform.DifferenceNodeHeightTransform",
+          "x": {"id": "differences", "type": "Parameter", "tensor": [1.0, 1.0, 1.0]},
+          "parameters": {"tree_model": "tree"}}
+    return FlexibleTimeTreeModel.json_factory("tree", "((A,B),(C,D));", nh, dict(zip("ABCD", [0.0, 0.0, 0.0, 0.0])))
+
+
+def ob_real_selfregistering():
+    def fn():
+        spec = _flexible_tree_spec()
+        args = {"specs": [spec], "expect": "accept"}
+        ok, msg = replay_spec(args)
+        if not ok:
+            raise Refuted("well-formed specification of a self-registering class (FlexibleTimeTreeModel, circular reference from its "
+                          "heights) is rejected: %s" % msg, witness=dict(args, real_code=msg),
+                          replay={"kind": "custom", "contract": "C13", "func": "replay_spec", "args": args}, confirmed=True)
+        dic, exc = _load_real([spec])
+        if dic["tree"]._internal_heights is not dic["internal_heights"] or dic["internal_heights"].transform.tree is not dic["tree"] \
+                if hasattr(dic["internal_heights"].transform, "tree") else False:
+            raise Refuted("circular holders do not hold the registered instances", witness=args, replay=None, confirmed=True)
+        n = 1
+        for bad_id in ("tree", "taxa", "A"):
+            args = {"specs": [_flexible_tree_spec(bad_id)], "expect": "reject"}
+            ok, msg = replay_spec(args)
+            if not ok:
+                raise Refuted("heights parameter carrying the id %r of another object: %s" % (bad_id, msg), witness=dict(args, real_code=msg),
+                              replay={"kind": "custom", "contract": "C13", "func": "replay_spec", "args": args}, confirmed=True)
+            n += 1
+        return {"backend": "concrete", "cases": n,
+                "statement": "real FlexibleTimeTreeModel (registers itself, its heights refer back to it): loads, both holders hold the "
+                             "registered instances; a nested object re-using the tree's / taxa's / a taxon's id is rejected"}
+    return fn
+
+
 def ob_real_sharing():
     def fn():
         import torch
@@ -1754,6 +1803,7 @@ def obligations(tier, seed):
     add("C13.frame.real.nested", "B", ob_real_illformed("nested"), "frame")
     add("C13.frame.real.siblings", "B", ob_real_illformed("siblings"), "frame")
     add("C13.frame.real.earlier", "B", ob_real_illformed("earlier"), "frame")
+    add("C13.definition.real.selfregistering", "B", ob_real_selfregistering(), "definition")
     add("C13.reference.real.dangling", "B", ob_real_illformed("dangling"), "reference")
     add("C13.sharing.real", "B", ob_real_sharing(), "sharing")
     add("C13.comments.real", "B", ob_comments_no_effect(), "comments", funcs=FUNCS[4:5])
